@@ -26,11 +26,20 @@ func (c *ColBool) DecodeColumn(r *Reader, rows int) error {
 	if rows == 0 {
 		return nil
 	}
+	start := len(*c)
 	*c = append(*c, make([]bool, rows)...)
 	s := *(*slice)(unsafe.Pointer(c))     // #nosec G103
 	dst := *(*[]byte)(unsafe.Pointer(&s)) // #nosec G103
 	if err := r.ReadFull(dst); err != nil {
 		return errors.Wrap(err, "read full")
+	}
+	// Only 0 and 1 are valid in-memory representations of bool.
+	for i, v := range dst {
+		if v != boolTrue && v != boolFalse {
+			bad := v
+			*c = (*c)[:start]
+			return errors.Errorf("[%d]: bad value %d for Bool", i, bad)
+		}
 	}
 	return nil
 }
